@@ -144,7 +144,7 @@ fn op_convert(s: &mut Src, t: &mut Tr) {
     t.classes.push("malformed-input".into());
     match s.choose(7) {
         0 => {
-            let len = s.choose(71);
+            let len = crate::props::c13::conv_len(s);
             let (b, _) = conv_bytes(s, len, Md::R);
             t.log.push(format!("Fr::from_slice/from_hash {}", hex(&b)));
             t.b(&Fr::from_slice(&b).map(|v| v.to_slice().to_vec()).unwrap_or_default());
@@ -152,7 +152,7 @@ fn op_convert(s: &mut Src, t: &mut Tr) {
             t.flag(Fr::try_from(&b[..]).is_ok());
         }
         1 => {
-            let len = s.choose(71);
+            let len = crate::props::c13::conv_len(s);
             let (b, _) = conv_bytes(s, len, Md::Q);
             t.log.push(format!("Fq::from_slice {}", hex(&b)));
             t.b(&Fq::from_slice(&b).map(|v| v.to_slice().to_vec()).unwrap_or_default());
@@ -194,7 +194,7 @@ fn op_convert(s: &mut Src, t: &mut Tr) {
         }
         _ => {
             let v = felt(s, Md::Q).v;
-            let len = s.choose(71);
+            let len = crate::props::c13::conv_len(s);
             t.log.push(format!("to_big_endian {:x} into {} bytes", v, len));
             let mut buf = vec![0u8; len];
             t.flag(fq_of_big(&v).to_big_endian(&mut buf).is_ok());
